@@ -12,6 +12,7 @@ package main
 
 import (
 	"fmt"
+	"os"
 	"go/types"
 	"strings"
 
@@ -150,6 +151,40 @@ func (fe *FuncEnc) havocAll(st *State, why string) {
 	fe.bumpAllocTop(st)
 	st.ep.top = st.allocTop
 	fe.havocs = append(fe.havocs, why)
+}
+
+// havocReachable forgets the heap variables that code reaching only the given
+// types (plus the repository's package-level variables) could write; the
+// variables already in use that it cannot reach keep their value.
+func (fe *FuncEnc) havocReachable(st *State, why string, roots []types.Type) {
+	ri := fe.eng.reachOf(roots)
+	gr := fe.eng.globalReach()
+	if ri.any || gr.any {
+		fe.havocAll(st, why)
+		return
+	}
+	keep := map[string]string{}
+	for hv, t := range st.heap {
+		if !ri.affected(hv) && !gr.affected(hv) {
+			keep[hv] = t
+		} else if os.Getenv("VERIF_DEBUG_REACH") != "" && !fe.recording {
+			fmt.Fprintf(os.Stderr, "REACH %s: %s affected (args=%v globals=%v)\n", why, hv, ri.affected(hv), gr.affected(hv))
+		}
+	}
+	for hv := range st.heap {
+		if _, k := keep[hv]; !k {
+			fe.noteWrite(hv)
+		}
+	}
+	fe.noteWrite("*unknown")
+	if fe.curBlock != nil {
+		fe.blockReach[fe.curBlock] = append(fe.blockReach[fe.curBlock], ri)
+	}
+	st.heap = keep
+	st.ep = fe.newEpoch()
+	fe.bumpAllocTop(st)
+	st.ep.top = st.allocTop
+	fe.havocs = append(fe.havocs, why+" (type-reachable heap only)")
 }
 
 func (fe *FuncEnc) bumpAllocTop(st *State) {
